@@ -63,6 +63,18 @@ def run(ctx):
             s_["feeds"] = [{k: c["inputs"][k] for k in s_["names"]}] + [{k: perturb(rnd, c["inputs"][k]) for k in s_["names"]} for _ in range(2)]
         c["lazy_subsets"] = subs + [{"names": []}]
         cases.append(c)
+    # completeness over single library calls (multi-output primitives included): all inputs hold data =>
+    # the result reports a value and exports as constants only
+    from vlib import families
+    fam = (families.sorting_cases(rnd, 90 * (1 if ctx.tier == "quick" else 8), prefix="FS", max_len=9)
+           + families.reduction_cases(rnd, 40 * (1 if ctx.tier == "quick" else 8), prefix="FR")
+           + families.layout_cases(rnd, 40 * (1 if ctx.tier == "quick" else 8), prefix="FL")
+           + families.getitem_cases(rnd, 30 * (1 if ctx.tier == "quick" else 8), prefix="FG"))
+    fam = [c for c in fam if ".shape" not in c["impl"] and "to_numpy" not in c["impl"] and c["inputs"]]
+    for c in fam:
+        c["oracle"] = None
+        c["lazy_subsets"] = [{"names": []}]
+    cases += fam
     res = core.run_cases("harness.h_ops", cases, workers=14, per_case_timeout=180)
     folded = sound = 0
     for c in cases:
